@@ -143,6 +143,11 @@ type Machine struct {
 	onPending    func([]Dec)
 	inIntrinsic  *ssa.Function
 	decided      map[*sym.Term]bool
+	traceChans   map[*Chan]bool   // shared objects in thread-trace mode: operations are recorded, not executed
+	traceMutex   map[*Value]bool
+	SyncTrace    []string
+	mutexNames   map[*Value]string
+	traceAllMutex bool
 	domPending   []domFact
 	lastRun      *Run
 	mapOrderRev  bool
@@ -941,6 +946,10 @@ func (m *Machine) tryRecv(c *Chan) (Value, bool, bool) {
 }
 
 func (m *Machine) chanSend(c *Chan, v Value) {
+	if c != nil && m.traceChans[c] {
+		m.SyncTrace = append(m.SyncTrace, "S")
+		return
+	}
 	m.maybePreempt()
 	if c == nil {
 		m.park("send on nil chan")
@@ -961,6 +970,10 @@ func (m *Machine) chanSend(c *Chan, v Value) {
 }
 
 func (m *Machine) chanRecv(c *Chan) (Value, bool) {
+	if c != nil && m.traceChans[c] {
+		m.SyncTrace = append(m.SyncTrace, "R")
+		return zero(c.elem), true
+	}
 	m.maybePreempt()
 	if c == nil {
 		m.park("recv on nil chan")
@@ -1011,6 +1024,22 @@ type selCase struct {
 
 // doSelect returns (chosen index or -1 for default, received value, ok).
 func (m *Machine) doSelect(cases []selCase, blocking bool) (int, Value, bool) {
+	for i, sc := range cases {
+		if sc.ch != nil && m.traceChans[sc.ch] {
+			// thread-trace mode: only the non-blocking single-case forms are understood
+			if len(cases) != 1 || blocking {
+				m.unsupported("select over a traced channel with %d cases (blocking=%v)", len(cases), blocking)
+			}
+			if sc.send {
+				m.SyncTrace = append(m.SyncTrace, "TS") // try-send
+			} else {
+				m.SyncTrace = append(m.SyncTrace, "TR") // try-receive
+			}
+			// the trace follows the branch in which the operation succeeded; both
+			// outcomes have the same continuation in the code shapes accepted here
+			return i, zero(sc.ch.elem), true
+		}
+	}
 	m.maybePreempt()
 	var ready []int
 	for i, sc := range cases {
@@ -1071,6 +1100,10 @@ func (m *Machine) doSelect(cases []selCase, blocking bool) (int, Value, bool) {
 // ---------------------------------------------------------------- mutex / waitgroup
 
 func (m *Machine) mutexLock(p *Value) {
+	if m.traceMutex[p] {
+		m.SyncTrace = append(m.SyncTrace, "L:"+m.mutexName(p))
+		return
+	}
 	m.maybePreempt()
 	for {
 		st := (*p).(Struct)
@@ -1083,7 +1116,20 @@ func (m *Machine) mutexLock(p *Value) {
 	}
 }
 
+func (m *Machine) mutexName(p *Value) string {
+	if n, ok := m.mutexNames[p]; ok {
+		return n
+	}
+	n := fmt.Sprintf("m%d", len(m.mutexNames))
+	m.mutexNames[p] = n
+	return n
+}
+
 func (m *Machine) mutexUnlock(p *Value) {
+	if m.traceMutex[p] {
+		m.SyncTrace = append(m.SyncTrace, "U:"+m.mutexName(p))
+		return
+	}
 	st := (*p).(Struct)
 	if st[0].(int64) == 0 {
 		panic(goPanic{msg: "sync: unlock of unlocked mutex"})
